@@ -862,17 +862,45 @@ impl_read_op!("com.microsoft", QuickGelu, |attrs: &Attrs| {
     Ok(ops::QuickGelu { alpha })
 });
 
-impl_read_op!(Cast, |attrs: &Attrs| {
-    // The "saturate" attribute only applies to FP8, which is unsupported.
-    // Conversions to other types do not saturate, even if this attribute is 1.
-    attrs.check_eq("saturate", 1)?;
+impl ReadOp for ops::Cast {
+    fn id() -> OpId<'static> {
+        OpId::new("Cast")
+    }
 
-    // "round_mode" only applies to conversions to float8e8m0.
-    attrs.check_eq("round_mode", "up")?;
+    fn read(op: &onnx::NodeProto, ctx: &dyn OpLoadContext) -> Result<ParsedOp<Self>, ReadOpError> {
+        let attrs = Attrs::new(&op.attribute, ctx.opset_version());
 
-    let to = attrs.require("to")?.as_dtype()?;
-    Ok(ops::Cast { to })
-});
+        // The "saturate" attribute only applies to FP8, which is unsupported.
+        // Conversions to other types do not saturate, even if this attribute is 1.
+        attrs.check_eq("saturate", 1)?;
+
+        // "round_mode" only applies to conversions to float8e8m0.
+        attrs.check_eq("round_mode", "up")?;
+
+        let to = attrs.require("to")?.as_dtype()?;
+        Ok(ParsedOp::from(ops::Cast { to }).with_unused_attrs(attrs.unused_attrs()))
+    }
+
+    fn read_boxed(op: &onnx::NodeProto, ctx: &dyn OpLoadContext) -> ReadOpResult {
+        let parsed = Self::read(op, ctx)?;
+
+        // Bools are represented as i32, but a cast to bool is not a plain
+        // conversion to i32: non-zero values must become 1.
+        let to_bool = op
+            .attribute
+            .iter()
+            .find(|attr| attr.name.as_deref() == Some("to"))
+            .is_some_and(|attr| attr.i == Some(i64::from(onnx::DataType::BOOL.0)));
+        if to_bool {
+            let ParsedOp { unused_attrs, .. } = parsed;
+            return Ok(ParsedOp::new(ops::CastToBool {})
+                .with_unused_attrs(unused_attrs)
+                .into());
+        }
+
+        Ok(parsed.into())
+    }
+}
 
 impl_read_op!(CastLike, |attrs: &Attrs| {
     // The "saturate" attribute only applies to FP8, which is unsupported.
